@@ -216,6 +216,7 @@ func init() {
 		})
 		ok := sym.UF("uf_cid_ok", sym.BoolSort, s)
 		m.noteDecoded("uf_cid_ok", s)
+		m.assertPC(sym.Implies(sym.Eq(s, sym.Str("")), sym.Not(ok))) // the empty text decodes to nothing
 		if m.branch(ok) {
 			bs := sym.UF("uf_cid_bytes", sym.StrSort, s)
 			// a decoded CID is never the undefined CID
@@ -321,6 +322,7 @@ func init() {
 		})
 		ok := sym.UF("uf_peer_ok", sym.BoolSort, s)
 		m.noteDecoded("uf_peer_ok", s)
+		m.assertPC(sym.Implies(sym.Eq(s, sym.Str("")), sym.Not(ok)))
 		if m.branch(ok) {
 			bs := sym.UF("uf_peer_bytes", sym.StrSort, s)
 			m.assertPC(sym.Not(sym.Eq(bs, sym.Str(""))))
@@ -357,6 +359,10 @@ func init() {
 				}
 			})
 			ok := sym.UF(okN, sym.BoolSort, s)
+			// the empty text is not a number (also when s only happens to be empty)
+			if !s.Const {
+				m.assertPC(sym.Implies(sym.Eq(s, sym.Str("")), sym.Not(ok)))
+			}
 			if m.branch(ok) {
 				return Tuple{sym.UF(valN, sym.BV(64), s), Iface{}}
 			}
